@@ -446,6 +446,14 @@ def r6_streams_and_text_ranges(ctx):
             ok = bool(calls_[0].args) and u(calls_[0].args[0]) == m.params[1]
         elif fn in ("self.get_field_by_number", "self._get_field_by_number"):
             ok = False
+        elif fn == "self._buffer_extractor.get_field_by_number":
+            # straight to the extractor: right only if no class of the family re-maps columns in its own text accessor
+            over = [x.name for x in [base] + ix.subclasses(base, strict=True) if "get_text_field_by_number" in x.methods and x is not c and c in ix.mro(x)]
+            own = ix.lookup_method(c, "get_text_field_by_number")
+            own_e = single_return_expr(own.node) if own is not None else None
+            ok = not over and (own is None or (own_e is not None and sym.canon(own_e) == sym.canon(calls_[0])))
+            if ok:
+                raise Unrecognised(f"{m.where}: text range accessor returns through `{fn}`")
         else:
             raise Unrecognised(f"{m.where}: text range accessor returns through `{fn}`")
         ctx.ob(m.where, f"{c.name}: untouched columns are supplied to the writer as the file's own text (the text accessor), not through the typed column accessor "
@@ -485,6 +493,11 @@ def _late_bound_constants(ctx):
     from .c05 import r7_late_bound_constants
     r7_late_bound_constants(ctx)   # format constants are read through cls / self so that subclass formats keep their own
 
+def _integer_formatting(ctx):
+    from .c18 import r1_formatting
+    r1_formatting(ctx)       # every int column (and int list) is written through ints_to_strings: exact digit counts, no floating logarithm
+
+
 RULES = [
     ("C03-R1", r1_writer_exhaustive),
     ("C03-R2", r2_header_once),
@@ -498,4 +511,5 @@ RULES = [
     ("C03-R8", _lazy_concatenate),
     ("C03-R9", _shared_tables_not_written),
     ("C03-R10", _late_bound_constants),
+    ("C03-R11", _integer_formatting),
 ]
